@@ -27,7 +27,7 @@ def sh(cmd, cwd=None, env=None, timeout=3600):
 def main():
     src, mid = sys.argv[1], sys.argv[2]
     meta = json.load(open(os.path.join(src, "meta.json")))
-    prop = meta.get("property")
+    prop = meta.get("property") or meta.get("breaks_property")
     checks = sys.argv[3:] or [prop]
     wt = "/tmp/mw/%s" % mid
     sh("git -C /repo worktree remove --force %s" % wt)
@@ -77,11 +77,14 @@ def finish(res, src, mid, meta):
         d = os.path.join(VERIF, "seeded", mid)
         os.makedirs(d, exist_ok=True)
         for f in ("patch.diff", "demo.py"):
-            shutil.copy(os.path.join(src, f), os.path.join(d, f))
+            if os.path.abspath(src) != os.path.abspath(d):
+                shutil.copy(os.path.join(src, f), os.path.join(d, f))
+        if meta.get("note"):
+            pass
         m = {
-            "breaks_property": meta.get("property"),
+            "breaks_property": meta.get("property") or meta.get("breaks_property"),
             "summary": meta.get("summary"),
-            "needs_to_manifest": meta.get("needs"),
+            "needs_to_manifest": meta.get("needs") or meta.get("needs_to_manifest"),
             "files": meta.get("files"),
             "confirmed": {
                 "patch_applies_to_repo_head": True,
@@ -92,6 +95,8 @@ def finish(res, src, mid, meta):
             "checks_run": res["ran"],
             "detected_by": res["detected_by"],
         }
+        if meta.get("note"):
+            m["note"] = meta["note"]
         with open(os.path.join(d, "meta.json"), "w") as f:
             json.dump(m, f, indent=1)
     return 0
